@@ -39,6 +39,11 @@ type Dyn struct {
 	CustomMode string `json:"custom_mode,omitempty"`
 	// TwoMode: "two drivers from one Platform object" session: transport1 | transport3 | fields
 	TwoMode string `json:"two_mode,omitempty"`
+	// Host: host name from the platform's prompt family ("" = canonical table); AltLevel/AltIdx
+	// (1-based): that level shows its AltIdx-th alternative spelling (config sub mode etc.)
+	Host     string `json:"host,omitempty"`
+	AltLevel string `json:"alt_level,omitempty"`
+	AltIdx   int    `json:"alt_idx,omitempty"`
 }
 
 func (s Dyn) label() string {
@@ -183,6 +188,9 @@ func RunDyn(s Dyn) mon.Result {
 	if early != nil {
 		return *early
 	}
+	if s.Host != "" {
+		prompts = familyPrompts(s.Platform, s.Host, s.AltLevel, s.AltIdx)
+	}
 	ref, _, err := parseDef(b)
 	if err != nil {
 		return viol("c17/definition-malformed:"+label, "definition does not parse: %v", err)
@@ -253,8 +261,13 @@ func RunDyn(s Dyn) mon.Result {
 	if d == nil {
 		return mon.Result{Verdict: mon.Inconclusive, Detail: "harness: dynamic session needs a network driver"}
 	}
-	if s.Source == "asset" {
+	if s.Source == "asset" && s.Host == "" {
 		if v := checkOverlap(label, d.PrivilegeLevels, prompts); v != nil {
+			return *v
+		}
+	}
+	if s.Host != "" {
+		if v := checkFamilyPrompts(s.Platform, d.PrivilegeLevels, d.Channel.PromptPattern, prompts, fmt.Sprintf("host name %q", s.Host)); v != nil {
 			return *v
 		}
 	}
@@ -489,6 +502,14 @@ func drive(s Dyn, label string, eff *refPlatform, effDefault string, prompts map
 	obs["device_password_rejections"] += int64(st.rejected)
 	if s.UserDefault != "" {
 		obs["sessions_with_user_default_level"]++
+	}
+	if s.Host != "" {
+		obs["sessions_with_family_host_name"]++
+		tags = append(tags, "host="+s.Platform+":"+s.Host)
+		if s.AltLevel != "" {
+			obs["sessions_with_sub_mode_prompt"]++
+			tags = append(tags, fmt.Sprintf("alt=%s:%s#%d", s.Platform, s.AltLevel, s.AltIdx))
+		}
 	}
 	if s.Source != "asset" || s.Variant != "" {
 		obs["sessions_on_variants_or_fixtures"]++
